@@ -302,6 +302,8 @@ def summarise_loop(I, seq, node, fr):
             del v[n0:]
 
             def elem(idx, captured=expr):
+                if seq.facts is not None and not (isinstance(idx, Num) and idx.depends_on(alg._BOUND)):
+                    seq.core_at(I, idx)  # for its side effect: the source element's facts hold at this index
                 return _subst_index(captured, i, idx)
 
             fr.vars[k] = SymSeq("map[%s|%s]" % (seq.key, _val_key(expr)), seq.core_len, elem)
@@ -337,6 +339,8 @@ def _subst_index(v, i, idx):
         return _num_or_int(v.subst({list(i.atoms())[0]: idx}))
     if isinstance(v, tuple):
         return tuple(_subst_index(x, i, idx) for x in v)
+    if isinstance(v, list):
+        return [_subst_index(x, i, idx) for x in v]
     if isinstance(v, Model) and hasattr(v, "subst_index"):
         return v.subst_index(lambda x: _subst_index(x, i, idx))
     return v
@@ -347,6 +351,10 @@ def _val_key(v):
         return v.key()
     if isinstance(v, Model) and hasattr(v, "val_key"):
         return v.val_key()
+    if isinstance(v, (list, tuple)):
+        return "[" + ",".join(_val_key(x) for x in v) + "]"
+    if isinstance(v, Model):
+        return type(v).__name__
     return repr(v)
 
 
